@@ -36,6 +36,12 @@ func (r *revClientHandler) WhoAmI(ctx context.Context, token int) (int, error) {
 	return r.identity*100000 + token, nil
 }
 
+// Other is what every second client aliases R.AliasWho to: the alias tables of the clients of one process differ
+func (r *revClientHandler) Other(ctx context.Context, token int) (int, error) {
+	r.tr.ev("rev.start", token, r.identity)
+	return r.identity*100000 + 50000 + token, nil
+}
+
 type revServerHandler struct {
 	tr *tracer
 }
@@ -69,7 +75,7 @@ func (h *revServerHandler) CallMe(ctx context.Context, token int, mode int) (int
 		h.tr.ev("rev.blocked", token)
 		return -3, nil
 	}
-	h.tr.ev("h.end", token, ctx.Err() != nil)
+	h.tr.evEnd(token, ctx)
 	if err != nil {
 		h.tr.ev("rev.error", token, err.Error())
 		return -2, nil
@@ -118,7 +124,7 @@ func scenReverse(n, per int, fmtIdx int, cut string, transport string, withOptio
 		c, err := jsonrpc.NewMergeClient(context.Background(), addr, "S", []interface{}{&clients[i]}, nil,
 			jsonrpc.WithMethodNameFormatter(f), jsonrpc.WithNoReconnect(), jsonrpc.WithPingInterval(0),
 			jsonrpc.WithClientHandler("R", &revClientHandler{identity: i + 1, tr: tr, hold: holdOf}),
-			jsonrpc.WithClientHandlerAlias("R.AliasWho", f("R", "WhoAmI")))
+			jsonrpc.WithClientHandlerAlias("R.AliasWho", f("R", []string{"WhoAmI", "Other"}[i%2])))
 		if err != nil {
 			panic(err)
 		}
@@ -173,7 +179,9 @@ func scenReverse(n, per int, fmtIdx int, cut string, transport string, withOptio
 					rec.Outcome = "reverse-error"
 				case v == -3:
 					rec.Outcome = "reverse-blocked"
-				case v == (i+1)*100000+rec.Token:
+				case mode == 1 && i%2 == 1 && v == (i+1)*100000+50000+rec.Token:
+					rec.Outcome = "ok" // this client aliases the name to its other method
+				case v == (i+1)*100000+rec.Token && !(mode == 1 && i%2 == 1):
 					rec.Outcome = "ok"
 				default:
 					rec.Outcome = fmt.Sprintf("foreign:%d", v)
@@ -269,7 +277,7 @@ func scenReverse(n, per int, fmtIdx int, cut string, transport string, withOptio
 		case !c.Returned:
 			run.Oracle = fmt.Sprintf("forward call %d never returned", c.Token)
 		case strings.HasPrefix(c.Outcome, "foreign"):
-			run.Oracle = fmt.Sprintf("call %d (%s): the reverse call reached another client: %s", c.Token, c.Kind, c.Outcome)
+			run.Oracle = fmt.Sprintf("call %d (%s): the reverse call was answered by another client, or by another method than this client's own alias table names (identity*100000 [+50000 for its other method] + token expected): %s", c.Token, c.Kind, c.Outcome)
 		case c.Outcome == "reverse-blocked":
 			run.Oracle = fmt.Sprintf("call %d: the reverse call blocked instead of returning an error after its client was gone", c.Token)
 		case strings.HasPrefix(c.Outcome, "other:"):
